@@ -421,11 +421,12 @@ func (ro *Roles) runningAgreement(r *Report, rule string) {
 	if !ro.need(r, rule, map[string]*ssa.Function{"pipeline running predicate": ro.PipeRunning, "running predicate": ro.RunPred}) {
 		return
 	}
-	fn := ro.PipeRunning
 	// ∃: ranges over jobsByPipeline[arg0]; returns true on the predicate's true edge, false after the loop
+	// (the loop may sit in a function over the list that the predicate delegates to)
+	fn, list := ro.existsHost()
 	okE := false
 	for _, f := range w.ifFacts(fn) {
-		if f.Atom.Op == "true" && strings.HasPrefix(f.Atom.L, FuncName(ro.RunPred)+"(recv.jobsByPipeline[arg0][") {
+		if f.Atom.Op == "true" && list != "" && strings.HasPrefix(f.Atom.L, FuncName(ro.RunPred)+"("+list+"[") {
 			if blockReturns(f.If.Block().Succs[f.SuccTrue], retConstBool(true)) {
 				okE = true
 			}
@@ -455,7 +456,7 @@ func (ro *Roles) runningAgreement(r *Report, rule string) {
 		return
 	}
 	uses := len(findCalls(cfn, func(_ string, c *ssa.CallCommon) bool { return c.StaticCallee() == ro.RunPred })) > 0
-	r.Check(uses, rule+".same-predicate", FuncName(cfn)+" and "+FuncName(fn)+" share the running predicate", w.Pos(cfn.Pos()), "both call "+FuncName(ro.RunPred), "the admission count and the reported running flag use different predicates")
+	r.Check(uses, rule+".same-predicate", FuncName(cfn)+" and "+FuncName(ro.PipeRunning)+" share the running predicate", w.Pos(cfn.Pos()), "both call "+FuncName(ro.RunPred), "the admission count and the reported running flag use different predicates")
 }
 
 // ---------------------------------------------------------------------------------
